@@ -354,10 +354,10 @@ func (x *c13Exec) render(rng *Rng) {
 	}
 	if x.padAt > 0 && x.form == "yaml" {
 		starts := c13DocStarts(x.data, x.form)
-		at := starts[len(starts)-1]
+		at := starts[len(starts)-1] - 4 // in front of the "---\n" of the last document
 		pad := "# " + strings.Repeat("-", x.padAt-2) + "\n"
 		x.data = []byte(string(x.data[:at]) + pad + string(x.data[at:]))
-		x.layout = fmt.Sprintf("comment-line:%d-bytes:at-document-%d/%d", x.padAt, len(starts), len(starts))
+		x.layout = fmt.Sprintf("comment-line-in-front-of-the-separator:%d-bytes:at-document-%d/%d", x.padAt, len(starts), len(starts))
 	}
 }
 
